@@ -17,7 +17,8 @@ RULE = (
     "only tags it carries and mosExternalMetadata blocks whose mosSchema it carries.  Non-trivial = "
     ">= 2 stories and (some reference is blank/unknown/missing, or another story holds an item with "
     "a named ID, or the message is a metadata replace over >= 2 metadata children)."
-    ' Also: non-blank text tails after items / stories / paragraphs, lead text in stories and in roReplace / roCreate, second metadata blocks, schema-less blocks, anonymous and twin-ID elements, foreign-namespace decoys; an unchanged body is trivially framed (early exit).')
+    ' Also: non-blank text tails after items / stories / paragraphs, lead text in stories and in roReplace / roCreate, second metadata blocks, schema-less blocks, anonymous and twin-ID elements, foreign-namespace decoys; an unchanged body is trivially framed (early exit).'
+    ' Round 11: replacements that also carry a story whose ID another story has (frame = what the message does not name); returning-element histories; a running order that loses its roCreate is reported.')
 ASSUMPTIONS = [
     'named elements are computed from the message text by the harness (never through library accessors)',
     'running-order metadata tags other than mosExternalMetadata are unique within roCreate; '
